@@ -678,10 +678,13 @@ def _layout_is_repeat(prog, n):
 
 
 def asm_ignorer_marks(prog, rep, R, R2):
-    """The asm ignorer: (C07.d) it visits exactly the lines whose type is AsmInstruction and marks every token of each; every mark it
-    makes is made for such a line.  (C07.i) it also marks the closed span first..=last of the line: conditional directives written
-    inside an instruction, and the tokens of the branch they exclude, are on other logical lines (ConditionalDirective lines, the
-    instruction line of the other parse) and would otherwise be moved to lines of their own and re-cased."""
+    """The asm ignorer, whatever its loops look like (iterator chain with closures, or `for` loops): (C07.d) every mark it makes is made
+    for a line whose type was tested to be AsmInstruction — by a dominating `==` / `!=` / `matches!` test or by a `filter` with that
+    predicate on the way to the marking closure — and under no other condition than that test, the iteration itself and the line
+    having tokens; every token listed in the line is marked.  (C07.i) it also marks the closed span first..=last of the line:
+    conditional directives written inside an instruction, and the tokens of the branch they exclude, are on other logical lines and
+    would otherwise be moved to lines of their own and re-cased."""
+    from panic import dominating_conditions
     ia = "<pasfmt_core::rules::ignore_asm_instructions::IgnoreAsmIstructions as pasfmt_core::traits::TokenIgnorer>::ignore_tokens"
     b = prog.body(ia)
     if not rep.check(b is not None, R, "anchor:IgnoreAsmIstructions", "IgnoreAsmIstructions::ignore_tokens not found"):
@@ -690,51 +693,109 @@ def asm_ignorer_marks(prog, rep, R, R2):
     MARK = FMT + "TokenMarker::mark"
 
     def clos(body, a):
-        return body.locals[a["place"]["l"]].get("closure") if a["k"] in ("copy", "move") and not a["place"]["p"] else None
-    # the line filter
-    flt = [c for c in b.calls() if (c.callee or "").endswith("Iterator::filter")]
-    fe = [c for c in b.calls() if (c.callee or "").endswith("Iterator::for_each")]
-    ok = len(flt) == 1 and len(fe) == 1
-    f0 = prog.body(clos(b, flt[0].args[1]) or "") if ok else None
-    per_line = prog.body(clos(b, fe[0].args[1]) or "") if ok else None
-    ok = ok and f0 is not None and per_line is not None and canon(b, fe[0].args[0]).startswith("filter(iter(arg2.1)")
-    if ok:
-        consts = [v for a, v in enum_variants_mentioned(f0) if a.endswith("LogicalLineType")]
-        ok = consts == ["AsmInstruction"] and any((c.target or "").endswith("PartialEq>::eq") or (c.callee or "") == "core::cmp::PartialEq::eq" for c in f0.calls()) \
-            and not any((c.callee or "").endswith("::ne") or (c.callee or "").endswith("Not::not") for c in f0.calls())
-    rep.check(ok, R, "asm:visits-exactly-the-asm-lines", "IgnoreAsmIstructions no longer visits exactly the lines whose type is AsmInstruction (lines.iter().filter(type == AsmInstruction).for_each(..))",
-              where="%s:%d" % (b.file, b.line), instance={"filter": "line_type == AsmInstruction"})
-    # every mark call of the family is made inside the per-line closure (or a closure of it)
+        return norm(body.locals[a["place"]["l"]].get("closure") or "") if a["k"] in ("copy", "move") and not a["place"]["p"] else ""
+
+    def parent_call(x):
+        """(parent body, the call that receives closure x)"""
+        if "::{closure" not in x.npath:
+            return None
+        par = prog.body(x.npath.rsplit("::{closure", 1)[0])
+        for d in (par.calls() if par is not None else []):
+            if any(clos(par, a) == x.npath for a in d.args):
+                return par, d
+        return None
+
+    def is_asm_pred(f):
+        consts = [v for a, v in enum_variants_mentioned(f) if a.endswith("LogicalLineType")]
+        return consts == ["AsmInstruction"] and any((c.target or "").endswith("PartialEq>::eq") or (c.callee or "") == "core::cmp::PartialEq::eq" for c in f.calls()) \
+            and not any((c.callee or "").endswith("::ne") or (c.callee or "").endswith("Not::not") for c in f.calls())
+
+    def classify(x, bb):
+        """dominating conditions of bb in x as (asm-test?, other conditions)"""
+        asm, other = False, []
+        only_asm = [v for a, v in enum_variants_mentioned(x) if a.endswith("LogicalLineType")] == ["AsmInstruction"]
+        for cd in dominating_conditions(x, bb):
+            if cd[0] == "call" and only_asm and ((cd[1].endswith("::eq") and cd[3] is True) or (cd[1].endswith("::ne") and cd[3] is False)):
+                asm = True
+            elif cd[0] == "call" and (cd[1].endswith("::eq") or cd[1].endswith("::ne")) and only_asm:
+                other.append("the line type is NOT AsmInstruction")
+            else:
+                other.append("%s %s" % (cd[1] if cd[0] == "call" else cd[0], str(cd[2:4])[:60]))
+        for f in dominating_variant_facts(prog, x, bb):
+            if "get_line_type(" in f[0]:
+                if f[1] == "is" and f[2] == ("AsmInstruction",):
+                    asm = True
+                else:
+                    other.append("line type %s %s" % (f[1], f[2]))
+            elif re.match(r"^next\(", f[0]) or re.search(r"\b(first|last)\(", f[0]):
+                continue                      # the iteration itself / the line has tokens
+            else:
+                other.append("%s %s %s" % (f[0][:50], f[1], f[2]))
+        return asm, other
+
+    def chain(x, bb, depth=0):
+        """(asm-test found?, other conditions) accumulated from the mark site up to ignore_tokens"""
+        asm, other = classify(x, bb)
+        pc = parent_call(x) if depth < 4 else None
+        if pc:
+            par, d = pc
+            it = canon(par, d.args[0]) if d.args else ""
+            if "filter(" in it:
+                for fc in par.calls():
+                    if (fc.callee or "").endswith("Iterator::filter") and len(fc.args) == 2:
+                        f = prog.body(clos(par, fc.args[1]))
+                        if f is not None and is_asm_pred(f):
+                            asm = True
+                        elif f is not None:
+                            other.append("filter with another predicate")
+            a2, o2 = chain(par, d.bb, depth + 1)
+            asm, other = asm or a2, other + o2
+        return asm, other
+
+    def iterated(x, c):
+        a = canon(x, c.args[1])
+        m = re.match(r"^\*?next\(into_iter\((.+)\)\)@Some\.0$", a)
+        if m:
+            return x, m.group(1)
+        pc = parent_call(x)
+        if a in ("arg2", "deref(arg2)", "*arg2") and pc and (pc[1].callee or "").endswith("for_each"):
+            return pc[0], canon(pc[0], pc[1].args[0])
+        return x, a
     marks = [(x, c) for x in fam for c in x.calls() if c.callee == MARK]
-    outside = [short(x.npath) for x, c in marks if per_line is None or not (x.npath == per_line.npath or x.npath.startswith(per_line.npath + "::"))]
-    rep.check(not outside, R, "asm:marks-only-for-asm-lines", "IgnoreAsmIstructions marks tokens outside its per-asm-line closure: %s" % outside, instance={"mark_sites": len(marks)})
     rep.floor(R, "mark sites of the asm ignorer", len(marks), 1)
-    if per_line is None:
-        return
-    # what is iterated with a marking closure
-    iterated = []
-    for c in per_line.calls():
-        if (c.callee or "").endswith("Iterator::for_each") and len(c.args) == 2:
-            k = prog.body(clos(per_line, c.args[1]) or "")
-            if k is not None and any(c2.callee == MARK and canon(k, c2.args[1]) in ("arg2", "deref(arg2)", "*arg2") for c2 in k.calls()):
-                iterated.append((c, canon(per_line, c.args[0])))
-    for c in per_line.calls():                          # `for t in X { marker.mark(t) }`
-        if c.callee == MARK:
-            m = re.match(r"^\*?next\(into_iter\((.+)\)\)@Some\.0$", canon(per_line, c.args[1]))
-            if m:
-                iterated.append((c, m.group(1)))
-    every = [x for _, x in iterated if re.match(r"^(iter|into_iter)\(deref\(get_tokens\(arg2\)\)\)$", x) or x == "deref(get_tokens(arg2))" or x == "get_tokens(arg2)"]
-    rep.check(bool(every), R, "asm:marks-every-token-of-asm-lines", "IgnoreAsmIstructions no longer marks every token of the AsmInstruction line (iterated with a marking closure: %s)" % [x[:80] for _, x in iterated],
-              where="%s:%d" % (per_line.file, per_line.line), instance={"iterated": [x[:160] for _, x in iterated]})
-    span = []
-    for c, x in iterated:
-        for name, args in _subterms(x):
-            if name.split("::")[-1] in ("new", "RangeInclusive") and len(args) >= 2 and "first(deref(get_tokens(" in args[0] and "last(deref(get_tokens(" in args[1]:
-                span.append(c)
+    every, span, info = [], [], []
+    for x, c in marks:
+        asm, other = chain(x, c.bb)
+        hb, it = iterated(x, c)
+        info.append(it[:120])
+        rep.check(asm, R, "asm:marks-only-for-asm-lines:%s" % short(x.npath), "IgnoreAsmIstructions marks tokens without having tested that the line's type is AsmInstruction (in %s)" % short(x.npath),
+                  where=c.where(), instance={"site": short(x.npath)})
+        rep.check(not other, R, "asm:no-asm-line-is-skipped:%s" % short(x.npath),
+                  "IgnoreAsmIstructions marks the tokens of an AsmInstruction line only under a further condition (%s): an instruction line for which it does not hold is formatted" % other[:2],
+                  where=c.where(), instance={"site": short(x.npath), "conditions": other[:3]})
+        core = it
+        while True:
+            m = re.match(r"^(?:iter|into_iter|deref|copied|cloned)\((.*)\)$", core)
+            if not m:
+                break
+            core = m.group(1)
+        if core.startswith("get_tokens("):
+            every.append(c)
+        if "new(" in it or "RangeInclusive" in it:
+            # the closed range is built from the first and the last token of the line's own list
+            og = Origins(hb)
+            for rc in hb.calls():
+                if (rc.callee or "").endswith("RangeInclusive::new") and len(rc.args) == 2:
+                    def from_call(op, name):
+                        return any(o[0] == "call" and str(o[2]).endswith(name) for o in og.of_operand(op))
+                    if from_call(rc.args[0], "::first") and from_call(rc.args[1], "::last"):
+                        span.append(c)
+    rep.check(bool(every), R, "asm:marks-every-token-of-asm-lines", "IgnoreAsmIstructions no longer marks every token listed in the AsmInstruction line (iterated for marking: %s)" % info,
+              where="%s:%d" % (b.file, b.line), instance={"iterated": info})
     rep.check(bool(span), R2, "asm:marks-the-closed-span-of-the-line",
               "IgnoreAsmIstructions marks only the tokens listed in the AsmInstruction line, not the span first..=last: a conditional directive written inside an instruction (and the excluded branch) "
               "is on a logical line of its own, is formatted (own line, upper-cased) and the instruction line is not emitted byte for byte",
-              where="%s:%d" % (per_line.file, per_line.line), instance={"iterated": [x[:160] for _, x in iterated]})
+              where="%s:%d" % (b.file, b.line), instance={"iterated": info})
 
 
 def finished_line_type_does_not_survive(prog, rep, R):
